@@ -128,9 +128,15 @@ func main() {
 		if b, err := os.ReadFile(src); err == nil {
 			var out []string
 			in, n := false, 0
-			for _, line := range strings.Split(string(b), "\n") {
+			for i, line := range strings.Split(string(b), "\n") {
 				if strings.HasPrefix(line, "func NewProxy(") {
 					in = true
+				}
+				// (and a yield point inside Proxy.Update, between the stop of a re-addressed proxy
+				// and its start: the proxy mutex is held, other proxies are free to act)
+				if strings.TrimSpace(line) == "return start(proxy)" {
+					ind := line[:len(line)-len(strings.TrimLeft(line, "\t "))]
+					out = append(out, fmt.Sprintf("%sVerifYield(\"proxy.go:%d\")", ind, i+1))
 				}
 				if in && strings.TrimSpace(line) == "return proxy" {
 					out = append(out, "\tVerifNewProxy(proxy)")
@@ -147,6 +153,32 @@ func main() {
 				}
 				replace[src] = dst
 				sites = append(sites, "proxy.go: NewProxy reports to VerifNewProxy")
+			}
+		}
+	}
+	// a yield point inside AddOrReplace / Add, between `existing.Stop()` and `proxy.Start()`
+	// (the collection lock is held; `Proxy.Update` of another proxy does not take it)
+	{
+		src := filepath.Join(*repo, "proxy_collection.go")
+		if b, err := os.ReadFile(src); err == nil {
+			var out []string
+			n := 0
+			for i, line := range strings.Split(string(b), "\n") {
+				if strings.TrimSpace(line) == "err := proxy.Start()" {
+					ind := line[:len(line)-len(strings.TrimLeft(line, "\t "))]
+					out = append(out, fmt.Sprintf("%sVerifYield(\"proxy_collection.go:%d\")", ind, i+1))
+					n++
+				}
+				out = append(out, line)
+			}
+			if n > 0 {
+				dst := filepath.Join(*dir, "proxy_collection.go")
+				if err := os.WriteFile(dst, []byte(strings.Join(out, "\n")), 0o644); err != nil {
+					fmt.Fprintln(os.Stderr, err)
+					os.Exit(1)
+				}
+				replace[src] = dst
+				sites = append(sites, fmt.Sprintf("proxy_collection.go: %d yield points", n))
 			}
 		}
 	}
